@@ -24,8 +24,8 @@ META = {'title': 'Fast tape loading leaves the machine exactly as the ROM loader
  'level_text': 'Refinement theorems in Lean 4: for every block length the 128-byte buffer machine delivers exactly the '
                "block's bytes then none; next_block skips leftovers; for every tape, request and memory the model of "
                'fast_load_tap equals the byte-level LD-BYTES spec on (memory, IX, DE, carry) and consumes exactly one '
-               'block; at the end of the tape the repaired model changes nothing (the code as found swaps AF and '
-               'reports success: proved as a negation with a witness, known finding). The model is tied to the Rust '
+               'block; at the end of the tape the repaired model changes nothing (the code of the pinned commit swapped AF and '
+               'reported success: proved as a negation with a witness; repaired in /repo by fix commit fce67ef). The model is tied to the Rust '
                'code on every run by a correspondence check (real Emulator + ROM, component-level Tap) with the '
                'executable spec adjudicating every disagreement.',
  'level_note': COMMON_NOTE + ' Partial: LD-BYTES itself is a byte-level reading of the ROM routine (validated against '
